@@ -282,7 +282,9 @@ class UnitRegistry:
         return equiv
 
     def __deepcopy__(self, memodict=None):
-        lut = copy.deepcopy(self.lut)
+        # entries are immutable tuples; copying the sympy dimension objects
+        # would break identity with unyt's dimension singletons
+        lut = dict(self.lut)
         return type(self)(lut=lut)
 
 
@@ -357,6 +359,31 @@ def _lookup_unit_symbol(symbol_str, unit_symbol_lut):
     )
 
 
+def _use_dimension_singletons(lut):
+    """Rebuild the dimensions of every entry from unyt's own dimension symbols.
+
+    Unpickled sympy symbols are equal but not identical to the module-level
+    singletons, and a lot of unyt compares dimensions with ``is``.
+    """
+    by_name = {
+        d.name: d for d in unyt_dims.base_dimensions if getattr(d, "is_Symbol", False)
+    }
+    memo = {}
+    for key, entry in lut.items():
+        dims = entry[1]
+        if id(dims) not in memo:
+            repl = {
+                s: by_name[s.name]
+                for s in getattr(dims, "free_symbols", ())
+                if s.name in by_name and s is not by_name[s.name]
+            }
+            memo[id(dims)] = (dims, dims.xreplace(repl) if repl else dims)
+        new_dims = memo[id(dims)][1]
+        if new_dims is not dims:
+            lut[key] = (entry[0], new_dims) + tuple(entry[2:])
+    return lut
+
+
 def _correct_old_unit_registry(data, sympify=False):
     lut = {}
     for k, v in data.items():
@@ -401,4 +428,4 @@ def _correct_old_unit_registry(data, sympify=False):
     for k in default_unit_symbol_lut:
         if k not in lut:
             lut[k] = default_unit_symbol_lut[k]
-    return lut
+    return _use_dimension_singletons(lut)
